@@ -352,3 +352,65 @@ Proof.
     rewrite (has_text_strip_nil _ E). reflexivity.
   - rewrite !map_map. induction HF as [|k ks Hk _ IH]; [reflexivity|]. cbn [map]. now rewrite Hk, IH.
 Qed.
+
+(* ------------------------------------------------------------------ *)
+(* str.strip is idempotent                                             *)
+(* ------------------------------------------------------------------ *)
+Lemma lstrip_head s c r : lstrip s = c :: r -> is_py_space c = false.
+Proof.
+  induction s as [|a s IH]; [discriminate|]. cbn [lstrip].
+  destruct (is_py_space a) eqn:E; [exact IH|]. intro H. inversion H; subst. exact E.
+Qed.
+
+Lemma lstrip_nonspace c r : is_py_space c = false -> lstrip (c :: r) = c :: r.
+Proof. intro H. cbn [lstrip]. now rewrite H. Qed.
+
+Lemma lstrip_fix s : lstrip (lstrip s) = lstrip s.
+Proof.
+  destruct (lstrip s) as [|c r] eqn:E; [reflexivity|].
+  apply lstrip_nonspace. now apply (lstrip_head s c r).
+Qed.
+
+Lemma lstrip_split x : exists w, all_sp w = true /\ x = w ++ lstrip x.
+Proof.
+  induction x as [|c x [w [Hw Hx]]].
+  - now exists [].
+  - cbn [lstrip]. destruct (is_py_space c) eqn:E.
+    + exists (c :: w). split; [unfold all_sp in *; cbn [forallb]; now rewrite E|]. cbn [app]. now f_equal.
+    + now exists [].
+Qed.
+
+Lemma py_strip_idem s : py_strip (py_strip s) = py_strip s.
+Proof.
+  unfold py_strip. set (a := lstrip s). set (b := lstrip (rev a)).
+  assert (Hb : lstrip (rev b) = rev b).
+  { destruct (lstrip_split (rev a)) as [w [Hw Hx]]. fold b in Hx.
+    destruct (rev b) as [|c r] eqn:Erb; [reflexivity|].
+    apply lstrip_nonspace.
+    assert (Ha : a = (c :: r) ++ rev w).
+    { rewrite <- Erb, <- rev_app_distr, <- Hx. now rewrite rev_involutive. }
+    unfold a in Ha. cbn [app] in Ha. now apply (lstrip_head s c (r ++ rev w)). }
+  rewrite Hb, rev_involutive. unfold b. now rewrite lstrip_fix.
+Qed.
+
+(* ------------------------------------------------------------------ *)
+(* what is read back is the tree that was serialised                   *)
+(* ------------------------------------------------------------------ *)
+Lemma canon_reread pr : forall t, canon (reread_gen pr t) = canon t.
+Proof.
+  apply elem_ind2. intros n attrs t kids HF. cbn [reread_gen canon]. f_equal.
+  - rewrite map_map. apply map_ext. intros [a v]. reflexivity.
+  - f_equal. f_equal. unfold reread_text. fold (txt_chars t).
+    destruct kids as [|k ks]; cbn [map].
+    + destruct (has_text t) eqn:E; [reflexivity|]. now rewrite (no_text_nil _ E).
+    + destruct (pr || has_text t) eqn:E; cbn [t_chars].
+      * apply py_strip_idem.
+      * apply orb_false_iff in E as [_ E]. now rewrite (no_text_nil _ E).
+  - rewrite map_map. induction HF as [|k ks Hk _ IH]; [reflexivity|]. cbn [map]. now rewrite Hk, IH.
+Qed.
+
+Lemma tree_roundtrip_l : forall pr i t,
+  tree_ok t = true -> option_map canon (handler (events pr i t)) = Some (canon t).
+Proof.
+  intros pr i t H. rewrite (top_all pr t i H). cbn [option_map]. now rewrite canon_reread.
+Qed.
